@@ -73,7 +73,12 @@ def dialect_cell(stream, abstract, src):
                 "bare_parent": "parent0" in names, "param_parent": bool(names & {"parentp", "parentp_idx"}), "ghosts": ("ghosts" in names or "ghosts_idx" in names or a["textra"].startswith("ghosts")),
                 "lit_or_pat": bool(names & {"literal", "pattern"}), "child": "child" in names or a["textra"].startswith("cp_"), "type_hint": bool(names & {"hint_s", "hint_t", "hint_u"}),
                 "map_idx": "map_idx" in names}
-    return {"dt": "enum" if re.search(r"\benum\b", src) else "struct", "kind": "ie" if "into_existing" in src else "other", "stream": stream,
+    extra = {}
+    if stream == "c15" and isinstance(abstract, dict) and abstract.get("dt") == "enum" and abstract.get("vf"):
+        # a tuple variant hinted `as {}` with a payload field whose only instruction is an expression (accepted for From: "name or an action")
+        extra["hint_s_expr_only"] = any(any(x["n"] == "type_hint_s" for x in m) and any(any(y["n"] == "map_action" for y in f) for f in vf)
+                                        for m, vf in zip(abstract["ms"], abstract["vf"]))
+    return {**extra, "dt": "enum" if re.search(r"\benum\b", src) else "struct", "kind": "ie" if "into_existing" in src else "other", "stream": stream,
             "shape": "tuple" if re.search(r"\bstruct \w+(<[^>]*>)?\s*\(", src) else "named",
             "bare_parent": bool(re.search(r"#\[parent\]|#\[parent\(\w+\)\]", src)), "ghosts": "ghosts" in src}
 
